@@ -5,6 +5,7 @@ import (
 	"fmt"
 	"io"
 	"runtime"
+	"runtime/metrics"
 	"sort"
 	"sync/atomic"
 	"time"
@@ -105,12 +106,30 @@ func stubPlugins(cfg index.Config, tvs []typeVer) index.Config {
 	return cfg
 }
 
+// measure returns the bytes allocated while f ran (f must be repeatable).  The cheap reading
+// (runtime/metrics, no stop-the-world) can lag by what the per-P allocation caches have not
+// flushed yet - large allocations are always counted at once -, so a reading that would matter
+// (above a quarter MiB) is confirmed by running f again between two exact runtime.ReadMemStats
+// calls; the exact figure is the one that is judged.
+var allocSample = []metrics.Sample{{Name: "/gc/heap/allocs:bytes"}}
+
+func heapAllocs() uint64 {
+	metrics.Read(allocSample)
+	return allocSample[0].Value.Uint64()
+}
+
 func measure(f func()) uint64 {
-	var a, b runtime.MemStats
-	runtime.ReadMemStats(&a)
+	a := heapAllocs()
 	f()
-	runtime.ReadMemStats(&b)
-	return b.TotalAlloc - a.TotalAlloc
+	d := heapAllocs() - a
+	if d < 256<<10 {
+		return d
+	}
+	var x, y runtime.MemStats
+	runtime.ReadMemStats(&x)
+	f()
+	runtime.ReadMemStats(&y)
+	return y.TotalAlloc - x.TotalAlloc
 }
 
 // openMem runs the real loader (index.OpenReader: list, newest first, loadSnapshot with CRC
@@ -120,7 +139,12 @@ func openMem(d *memDir, tvs []typeVer) (res loadResult, fail *vlib.Failure) {
 		cfg := stubPlugins(index.DefaultConfigWithDirectory(func() index.Directory { return d }), tvs)
 		var snap *index.Snapshot
 		var err error
-		res.Alloc = measure(func() { snap, err = index.OpenReader(cfg) })
+		res.Alloc = measure(func() {
+			if snap != nil {
+				_ = snap.Close() // second, exact measurement run
+			}
+			snap, err = index.OpenReader(cfg)
+		})
 		if err != nil {
 			res.Err = err.Error()
 			return nil
@@ -152,9 +176,12 @@ func decodeDirect(file []byte) (res directResult, fail *vlib.Failure) {
 		body = nil
 	}
 	fail = guarded("Snapshot.ReadFrom", func() *vlib.Failure {
-		snap := index.VerifNewSnapshot(1, nil)
+		var snap *index.Snapshot
 		var err error
-		res.Alloc = measure(func() { res.N, err = snap.ReadFrom(bytes.NewReader(body)) })
+		res.Alloc = measure(func() {
+			snap = index.VerifNewSnapshot(1, nil)
+			res.N, err = snap.ReadFrom(bytes.NewReader(body))
+		})
 		if err != nil {
 			res.Err = err.Error()
 			return nil
